@@ -610,9 +610,12 @@ class SimKernel:
         # the kernel zero-fills the part of bpf_attr user space left out
         attr = bytearray(raw) + bytes(max(0, ATTR_SIZE - len(raw)))
         handler = self._commands.get(cmd)
-        if handler is None or cmd in getattr(self, "refused_commands", ()):
-            # (refused_commands: an older kernel that does not know the command yet)
+        if handler is None:
             raise oserror(errno.EINVAL)
+        if cmd in getattr(self, "refused_commands", ()):
+            # an older kernel that does not know the command (for this map type) yet:
+            # EINVAL, or ENOTSUPP (524) as hash maps answered lookup-and-delete before 5.14
+            raise OSError(self.refused_commands[cmd], "refused by this kernel")
         self._count("cmd." + CMD_NAMES[cmd])
         self._reap()
         ret = handler(cmd, attr)
